@@ -94,6 +94,7 @@ class GenOptions:
     use_sleep: bool = True
     main_loop: bool = True
     probe_rate: float = 0.9
+    typing_bias: bool = False
 
 
 class ProgGen:
@@ -758,6 +759,66 @@ class ProgGen:
         self.emit(depth, "except Exception:")
         self.emit(depth + 1, "pass")
 
+    # ---- typing swarm (C02): names that get their type inside a branch or loop, mixed int/float flows
+    def stmt_hoist_if(self, depth: int, env) -> None:
+        r = self.rng
+        typ = r.choice(["float", "float", "str", "bool", "int"] if self.opts.use_strings else ["float", "bool", "int"])
+        name = self.fresh({"int": "n", "float": "x", "bool": "b", "str": "s"}[typ])
+        self.emit(depth, f"if {self.bool_expr(env)}:")
+        self.emit(depth + 1, f"{name} = {self.expr(env, typ, 1)}")
+        n_elif = r.choice([0, 0, 1])
+        for _ in range(n_elif):
+            self.emit(depth, f"elif {self.bool_expr(env, 1)}:")
+            self.emit(depth + 1, f"{name} = {self.expr(env, typ, 1)}")
+        self.emit(depth, "else:")
+        self.emit(depth + 1, f"{name} = {self.expr(env, typ, 1)}")
+        env[name] = typ
+        self.probe(depth, env, [name])
+
+    def stmt_hoist_loop(self, depth: int, env) -> None:
+        r = self.rng
+        typ = r.choice(["float", "float", "str", "int", "bool"] if self.opts.use_strings else ["float", "int"])
+        name = self.fresh({"int": "n", "float": "x", "bool": "b", "str": "s"}[typ])
+        k = self.fresh("k")
+        count = r.randint(1, 4)
+        self.readonly.add(k)
+        self.emit(depth, f"for {k} in range({count}):")
+        inner = dict(env)
+        inner[k] = "int"
+        self.emit(depth + 1, f"{name} = {self.expr(inner, typ, 1)}")
+        if typ == "float" and self.chance(0.5):
+            self.emit(depth + 1, f"{name} = ({name} + ({k} * 0.25))")
+        # a literal, positive trip count: the name is definitely assigned afterwards
+        env[name] = typ
+        self.probe(depth, env, [name])
+
+    def stmt_mixed_expr(self, depth: int, env) -> None:
+        r = self.rng
+        name = self.fresh("x")
+        form = r.choice(["tern", "arith", "cast", "cmp", "list"])
+        i1, i2 = self.int_expr(env, 2), self.int_expr(env, 2)
+        f1 = self.float_expr(env, 2)
+        if form == "tern":
+            self.emit(depth, f"{name} = ({i1} if {self.bool_expr(env, 1)} else {f1})")
+            env[name] = "float"
+        elif form == "arith":
+            self.emit(depth, f"{name} = (({i1} * 0.5) + {i2}) - {f1}")
+            env[name] = "float"
+        elif form == "cast":
+            self.emit(depth, f"{name} = float({i1}) + int({f1})")
+            env[name] = "float"
+        elif form == "cmp":
+            name = self.fresh("b")
+            self.emit(depth, f"{name} = ({i1} < {f1}) or ({f1} <= {i2})")
+            env[name] = "bool"
+        else:
+            name = self.fresh("xs")
+            self.emit(depth, f"{name} = [{i1}, {f1}, {i2}]")
+            env[name] = "list"
+            self.list_len[name] = 3
+            self.list_elem[name] = "float"
+        self.probe(depth, env, [name])
+
     def block(self, depth: int, env, ctx, count: int) -> None:
         r = self.rng
         made = 0
@@ -771,6 +832,9 @@ class ProgGen:
             weights = [4, 3, 2, 3, 2, 2, 3]
             if self.opts.use_lists:
                 kinds.append("list"); weights.append(3)
+            if self.opts.typing_bias and nested_ok:
+                kinds += ["hoist_if", "hoist_loop", "mixed_expr"]
+                weights += [4, 3, 4]
             if nested_ok:
                 kinds += ["if", "while", "for"]
                 weights += [4, 2, 3]
@@ -803,6 +867,12 @@ class ProgGen:
                 self.stmt_call(depth, env)
             elif kind == "try":
                 self.stmt_try(depth, env, ctx)
+            elif kind == "hoist_if":
+                self.stmt_hoist_if(depth, env)
+            elif kind == "hoist_loop":
+                self.stmt_hoist_loop(depth, env)
+            elif kind == "mixed_expr":
+                self.stmt_mixed_expr(depth, env)
         if made == 0:
             self.emit(depth, "pass")
 
@@ -864,7 +934,8 @@ class ProgGen:
         else:
             if self.chance(0.4):
                 self.emit(1, f"if {self.bool_expr(body_env, 1, no_call=True)}:")
-                self.emit(2, f"return {self.expr(body_env, ret, 1, no_call=True)}")
+                early_type = "int" if (ret == "float" and self.opts.typing_bias and self.chance(0.6)) else ret
+                self.emit(2, f"return {self.expr(body_env, early_type, 1, no_call=True)}")
             self.emit(1, f"return {self.expr(body_env, ret, 1, no_call=True)}")
         self.in_helper = False
         self.budget = saved_budget
